@@ -346,3 +346,71 @@ MUTANTS += [
      """        for node_id in []:
             if self.get_node_by_id(int(node_id)) is None:""", 'revert 80467fa'),
 ]
+
+# ---- compiler (C04, C17) -------------------------------------------------------
+MUTANTS += [
+    ('fixrev_ttc_product', ['C04'], MV,
+     """                "multiplication"
+                if ctx.children[2 * i - 1].getText() == "*"
+                else "division"
+            )
+            ret["lhs"] = lhs
+            ret["rhs"] = self.visit(factors[i])""",
+     """                "multiplication"
+                if ctx.STAR()
+                else "division"
+            )
+            ret["lhs"] = lhs
+            ret["rhs"] = self.visit(factors[i])""", 'partial revert b4345a6: operator taken from "any * in the term"'),
+    ('fixrev_raising_listener_parser', ['C17'], CO,
+     """        parser.removeErrorListeners()
+        parser.addErrorListener(error_listener)
+""", "", 'revert dc18ddc (parser side)'),
+    ('compiler_include_dedupe_before_merge', ['C04'], MV,
+     """                    included_file = self.compiler.compile(value)
+                    for k, v in langspec.items():""",
+     """                    included_file = self.compiler.compile(value)
+                    if value in getattr(self.compiler, '_seen_includes', set()):
+                        continue
+                    self.compiler._seen_includes = getattr(self.compiler, '_seen_includes', set()) | {value}
+                    for k, v in langspec.items():""",
+     'a file is merged only the first time a compiler instance sees it (breaks instance re-use)'),
+    ('visitor_setop_precedence', ['C04'], MV,
+     """        for i in range(1, len(ctx.parts())):
+            ret["type"] = self.visit(ctx.children[2 * i - 1])
+            ret["lhs"] = lhs
+            ret["rhs"] = self.visit(ctx.parts()[i])
+            lhs = ret.copy()""",
+     """        for i in range(1, len(ctx.parts())):
+            ret["type"] = self.visit(ctx.children[1])
+            ret["lhs"] = lhs
+            ret["rhs"] = self.visit(ctx.parts()[i])
+            lhs = ret.copy()""", 'every set operator of an expression is read as the first one'),
+    ('visitor_mult_single_star', ['C04'], MV,
+     """            if association[key][subkey] == "*":
+                # 'any' as lower limit means start from 0
+                if subkey == "min":
+                    association[key][subkey] = 0""",
+     """            if association[key][subkey] == "*":
+                # 'any' as lower limit means start from 0
+                if subkey == "min":
+                    association[key][subkey] = 1 if association[key]["max"] is None else 0""",
+     'benign-looking: unreachable because max is processed first'),
+    ('visitor_dedupe_assets_by_name', ['C04'], MV,
+     """            unique = []
+            for item in langspec[key]:
+                if item not in unique:
+                    unique.append(item)""",
+     """            unique = []
+            for item in langspec[key]:
+                if item.get("name") not in [u.get("name") for u in unique]:
+                    unique.append(item)""",
+     'de-duplication by name: same-named associations collapse'),
+]
+
+EQUIVALENT.append(('compiler_include_relative_to_includer', ['C04'], CO,
+     """        if not self.path:
+            self.path = os.path.dirname(malfile)""",
+     """        if not self.path:
+            self.path = os.path.dirname(os.path.abspath(malfile))""",
+     'equivalent: absolute path of the first file'))
